@@ -115,10 +115,9 @@ def hist_check(target, init, acts, trace=None):
 
 # ---- A.api: things one can try under STRICT through the API; each must be refused, or leave an element the validator accepts
 #      (missing required children aside) with no over-long leaf.  (id, recorded finding or None, function)
-def _api_items():
-    from hl7apy.core import Segment, Field, Component, SubComponent
+def _api_items(S=1):
+    from hl7apy.core import Message, Segment, Field, Component, SubComponent
     from hl7apy.base_datatypes import ST, SI, NM
-    S = 1
 
     def obx5_setter():
         seg = Segment('OBX', version=V, validation_level=S)
@@ -186,6 +185,39 @@ def _api_items():
         seg.pid_7 = 'notadate'
         return seg
 
+    def varies_field_setter():
+        seg = Segment('OBX', version=V, validation_level=S)
+        seg.obx_1 = '1'
+        seg.obx_2 = 'NM'
+        seg.obx_3 = 'A'
+        seg.obx_11 = 'F'
+        f = Field('OBX_5', version=V, validation_level=S)       # official datatype: varies
+        f.datatype = 'NM'
+        f.value = '12'
+        seg.add(f)
+        return seg
+
+    def varies_component_setter():
+        f = Field('QPD_3', version=V, validation_level=S)        # official datatype: varies
+        official = f.datatype
+        f.datatype = 'CE'
+        if f.datatype != official:
+            f.__dict__['datatype_overridden'] = True
+        return f
+
+    def z_segment():
+        m = Message('ADT_A01', version=V, validation_level=S)
+        m.msh.msh_7 = '20200101'
+        m.pid.pid_5 = 'S'
+        z = m.add_segment('ZIN')      # added last: insertion order and structure order agree (cf. C05-strict-structure-order)
+        z.zin_1 = 'x'
+        return m
+
+    def z_segment_parsed():
+        from hl7apy.parser import parse_message
+        return parse_message('MSH|^~\\&|A|B|C|D|20200101||ADT^A01^ADT_A01|1|P|%s\rEVN||20200101\rPID|||1||S\rPV1||I\rZXX|9' % V,
+                             validation_level=S)
+
     def nm_instance_ok():
         f = Field('OBX_1', version=V, validation_level=S)
         f.value = SI(1, validation_level=S)
@@ -197,10 +229,13 @@ def _api_items():
             ('overlong-datatype-object-built-tolerant', 'C05-datatype-object-unchecked', field_overlong_instance),
             ('qpd-extra-field', 'C05-open-ended-extra-field', qpd_extra), ('field-ctor-varies-override', 'C05-varies-override', field_varies_override),
             ('duplicate-single-field', None, dup_single), ('foreign-field', None, foreign_field), ('unknown-field', None, unknown_field),
-            ('invalid-value', None, invalid_value), ('valid-datatype-object', None, nm_instance_ok)]
+            ('invalid-value', None, invalid_value), ('varies-field-datatype-setter', None, varies_field_setter),
+            ('z-segment-added', None, z_segment), ('z-segment-parsed', None, z_segment_parsed),
+            ('varies-field-datatype-setter-standalone', None, varies_component_setter), ('valid-datatype-object', None, nm_instance_ok)]
 
 
-API = _api_items()
+API = _api_items(1)
+API_TOLERANT = _api_items(2)       # the same attempts under TOLERANT: what STRICT accepts, TOLERANT accepts with the same outcome
 NAPI = len(API)
 
 
@@ -216,15 +251,33 @@ def api_check(i, trace=None):
             trace.append('%s: refused under STRICT (%s: %s)' % (name, type(e).__name__, e))
         return True
     root = el
-    errs = _report(root)[0]
+    try:
+        errs = _report(root)[0]
+    except Exception as e:
+        errs = ['validate() raised %s: %s' % (type(e).__name__, e)]
     bad = [e for e in errs if not e.startswith('Missing required child')]
     if el.__dict__.get('datatype_overridden'):
         bad.append('the official datatype has been overridden: %r' % (el.datatype,))
     over = _overlong_leaves(root)
+    # STRICT accepted it: TOLERANT accepts it too, with the same encoding and the same report
+    same = []
+    if not finding:
+        try:
+            el_t = API_TOLERANT[i][2]()
+        except Exception as e:
+            same.append('TOLERANT refuses it (%s: %s)' % (type(e).__name__, e))
+        else:
+            if el_t.to_er7() != root.to_er7():
+                same.append('TOLERANT encodes %r' % (el_t.to_er7(),))
+            try:
+                if _report(el_t) != _report(root):
+                    same.append('TOLERANT report %r differs from STRICT report %r' % (_report(el_t), _report(root)))
+            except Exception:
+                pass
     if trace is not None:
-        trace.append('%s: accepted under STRICT -> %r ; validator errors other than missing children: %r ; over-long leaves: %r' % (
-            name, root.to_er7(), bad, over))
-    return not bad and not over
+        trace.append('%s: accepted under STRICT -> %r ; validator errors other than missing children: %r ; over-long leaves: %r ; '
+                     'STRICT vs TOLERANT: %r' % (name, root.to_er7(), bad, over, same))
+    return not bad and not over and not same
 
 
 def _ob_api(i: int) -> bool:
